@@ -425,19 +425,54 @@ def check_capi(ctx, lib, c):
 
 # ---- byte-buffer inputs that overlap the output object (hash-to-curve, identity derivation) -------------------------------
 HASH_OPS = ("g1affine_from_hash", "g2affine_from_hash", "lqibe_compute_id_from_hash")
+# get_point_from_x takes a field element by const reference without __restrict; Encoding::decode passes the result's own x member.
+# Patterns: the argument is the x member / the y member of the object that receives the point.
+MEMBER_OPS = ("g1_point_from_x|x=out.x", "g1_point_from_x|x=out.y", "g2_point_from_x|x=out.x", "g2_point_from_x|x=out.y")
 
 
 @st.composite
 def hash_alias_cases(draw):
-    op = draw(st.sampled_from(HASH_OPS))
+    op = draw(st.sampled_from(HASH_OPS + MEMBER_OPS))
     n = 96 if op.startswith("g2") else 48
-    from . import c10
+    from . import c05, c10
+    if op in MEMBER_OPS:
+        g = int(op[1])
+        if draw(st.booleans()):
+            kp, P = draw(c05.point(g))
+            x = P[0] if P is not None else draw(c05.fe(g))
+        else:
+            x = draw(c05.fe(g))
+        return {"op": op, "x": x, "greater": draw(st.booleans()), "checked": draw(st.booleans())}
     return {"op": op, "h": draw(c10.hash_int(n, F.Q))}
 
 
 def check_hash_alias(ctx, lib, c):
     import ctypes
     op = c["op"]
+    if op in MEMBER_OPS:
+        g = int(op[1])
+        x = c["x"] if g == 1 else tuple(c["x"])
+        X = conv.fq_b(x) if g == 1 else conv.fq2_b(x)
+        out_t = "G%dAffine" % g
+        osz = lib.sizeof(out_t)
+        f = lib.fn("vf_g_point_from_x")
+        lib.A.write_operand(X)
+        lib.O.arm(osz)
+        rv0 = f(g, lib.O.ptr, lib.A.ptr, int(c["greater"]), int(c["checked"]))
+        lib.O.check_guard(op, osz)
+        out0 = meaningful(lib, out_t, lib.O.read(osz))
+        off = 0 if op.endswith("out.x") else 48 * g
+        lib.B.fill(0xCD, osz)
+        img = bytearray(lib.B.read(osz))
+        img[off:off + len(X)] = X
+        lib.B.write(bytes(img))
+        rv1 = f(g, lib.B.ptr, ctypes.c_void_p(lib.B.addr + off), int(c["greater"]), int(c["checked"]))
+        out1 = meaningful(lib, out_t, lib.B.read(osz))
+        ctx.count(c, True, "member:%s" % op + (":found" if rv0 else ":none"))
+        expect(bool(rv0) == bool(rv1), "member/%s/return" % op, lambda: "x=%r: returns %d with a separate argument, %d with the member" % (x, rv0, rv1))
+        if rv0:
+            expect(out0 == out1, "member/%s" % op, lambda: "x=%r greater=%r: result differs when the argument is a member of the receiving object" % (x, c["greater"]))
+        return
     n = 96 if op.startswith("g2") else 48
     data = c["h"].to_bytes(n, "big")
     f = getattr(lib.dll, ("embedded_pairing_" + op) if op.startswith("lqibe") else (API + op))
@@ -465,10 +500,10 @@ def prebuild(tier):
 
 
 def finish(evidence, agg):
-    cells = {k: v for k, v in agg["classes"].items() if "|out=" in k}
+    cells = {k.replace(":found", "").replace(":none", ""): v for k, v in agg["classes"].items() if "|out=" in k or "|x=out" in k}
     evidence["coverage"]["cells"] = len(cells)
     evidence["coverage"]["min_cell_count"] = min(cells.values()) if cells else 0
-    want = len(TABLE_CELLS) + len(IRREG) + len(CAPI_CELLS) + len(HASH_OPS)
+    want = len(TABLE_CELLS) + len(IRREG) + len(CAPI_CELLS) + len(HASH_OPS) + len(MEMBER_OPS)
     evidence["coverage"]["cells_expected"] = want
     evidence["coverage"]["exhaustive"] = False
 
